@@ -4,7 +4,7 @@ CONSTANTS
   Tod <- TodMini
   EntAt <- EntAtY
   EntRun <- EntRunY
-  EntOk <- EntOkMini
+  EntSt <- EntStMini
   Cand <- CandA
   Bounds <- BoundsYQ
   Limits = {0, 1, 2}
